@@ -115,6 +115,10 @@ class Guitar(Instrument):
         Instrument.__init__(self)
 
     def can_play_notes(self, notes):
+        if hasattr(notes, "notes"):
+            notes = notes.notes
+        if not isinstance(notes, list):
+            notes = [notes]
         if len(notes) > 6:
             return False
         return Instrument.can_play_notes(self, notes)
